@@ -1641,7 +1641,16 @@ func (x *Exec) checkLoopFrame(st *State, fr *Frame, hdr *ssa.BasicBlock, n int) 
 		return
 	}
 	for _, name := range lf.names {
-		if name == "Alloc" || name == "Held" || strings.HasPrefix(name, "Ch") {
+		if name == "Held" {
+			// the loop head assumes the lock state of the loop entry, so every iteration must restore it
+			if cur, ok := st.Heap["Held"]; ok {
+				if head := lf.head["Held"]; head != nil && cur.String() != head.String() {
+					st.oblige("guard", fmt.Sprintf("L%d:lock-balance", n), Eq(cur, head), hdr.Instrs[0].Pos(), "locks held at the back edge == locks held at the loop head", x.safetyProps())
+				}
+			}
+			continue
+		}
+		if name == "Alloc" || strings.HasPrefix(name, "Ch") {
 			continue
 		}
 		cur, ok := st.Heap[name]
